@@ -8,6 +8,7 @@ From Virel Require Import Lib.Config Lib.U64 Lib.AMap Model.Emission Model.Ledge
   Proofs.NodeBasics Proofs.ForkChoice Proofs.Paging Proofs.Restart Proofs.ChainInv Proofs.ChainRun Proofs.ChainHeights
   Proofs.ChainExamples Proofs.Undo2 Proofs.Undo4 Proofs.Replay2 Proofs.Replay3 Proofs.Replay4 Proofs.Replay5 Proofs.Replay6
   Proofs.History1 Proofs.History2 Proofs.History3 Proofs.History4 Proofs.HistoryExamples Check.Hist Check.C01 Check.C17 Gen.Params.
+From Virel Require Model.Des Model.Codec Spec.TxAbs Proofs.CodecBridge Proofs.CodecBridgeNode.
 Open Scope N_scope.
 
 (* "every history page": for every history length n below 2^63 the pages served by get_tx_list partition the ids 1..n:
@@ -91,7 +92,8 @@ Print Assumptions C17_index_premises_satisfiable.
      block_signs b    = (address of the signer, tx id) of its transactions in order;    main_signs likewise;
      evs_for a E      = the ids of the events of E that concern address a, in order.
    PREMISES: those of C03_ledger_is_replay (constants; genesis; fewer than 2^64 - 1 deliveries; [typed]: uint64-typed
-   amounts and version byte of the payload kind for every transaction of a stored block; [paths]: along every chain of
+   amounts and version byte of the payload kind for every transaction of a stored block - derived from the byte-level
+   decoder in the *_decoded variants below, whose premise is "abstraction of a decoder output"; [paths]: along every chain of
    stored blocks from genesis the block hashes and transaction ids are pairwise distinct and the counters cannot wrap).
    Nothing is assumed about transaction ids ACROSS branches: a transaction may sit in a main-chain block and in stored
    blocks of other branches, at other heights (C17_same_tx_two_branches_example).
@@ -193,6 +195,114 @@ Theorem C17_main_events_as_checked : forall cfg, cfg_ok_emission cfg = true ->
 Proof. exact main_events_as_checked. Qed.
 Print Assumptions C17_main_events_as_checked.
 
+(* ---- THE SAME THEOREMS WITH THE TYPING PREMISE DISCHARGED FROM THE CODEC (Proofs/CodecBridge*.v), exactly as
+   C03_ledger_is_replay_decoded: [typed] is replaced by "every transaction x of a stored block other than genesis is the
+   abstraction (TxAbs.abs_tx, under any numbering: the seven functions quantified first) of a value Transaction.Deserialize
+   returned on some byte string in one of its two modes"; cfg_ok_burn = REGISTER_BURN < 2^64. ---- *)
+Theorem C17_incoming_history_decoded :
+  forall (txid_of key_id addr_id name_id : list N -> N) (sig_by : Model.Codec.tx -> N) (sig_msg : Model.Codec.tx -> bool)
+         (signer_invalid : list N -> bool) cfg genesis_addr team_key g n0 ops,
+  cfg_ok_emission cfg = true -> cfg_ok_feepos cfg = true -> CodecBridge.cfg_ok_burn cfg = true ->
+  node0 cfg genesis_addr g = Ok n0 -> b_height g = 0 -> b_cd g = b_diff g ->
+  N.of_nat (length ops) < two64 - 1 ->
+  let n := run cfg genesis_addr team_key n0 ops in
+  Forall (tx_c cfg) (b_txs g) ->
+  (forall h b, get_block n h = Some b -> h <> b_hash g ->
+     Forall (fun x => exists hv bs t,
+               Model.Des.result_of (Model.Des.run (Model.Codec.dec_tx cfg hv) bs) = Model.Des.ROk t /\
+               x = TxAbs.abs_tx txid_of key_id addr_id name_id sig_by sig_msg signer_invalid t) (b_txs b)) ->
+  (forall bs, up (b_hash g) (blocks n) (b_hash g) bs ->
+     NoDup (bkeys g ++ flat_map bkeys bs) /\ c0 g + bnouts bs < two64 /\ c0 g + bntx bs < two64) ->
+  forall a,
+    let evs := evs_for a (main_credits cfg genesis_addr g n) in
+    inc (acct_at (ldg n) a) = N.of_nat (length evs) /\
+    forall k, 1 <= k <= inc (acct_at (ldg n) a) -> pget (intx (ldg n)) (a, k) = Some (nth (N.to_nat (k - 1)) evs 0).
+Proof. exact CodecBridgeNode.incoming_history_decoded. Qed.
+Print Assumptions C17_incoming_history_decoded.
+
+Theorem C17_outgoing_history_decoded :
+  forall (txid_of key_id addr_id name_id : list N -> N) (sig_by : Model.Codec.tx -> N) (sig_msg : Model.Codec.tx -> bool)
+         (signer_invalid : list N -> bool) cfg genesis_addr team_key g n0 ops,
+  cfg_ok_emission cfg = true -> cfg_ok_feepos cfg = true -> CodecBridge.cfg_ok_burn cfg = true ->
+  node0 cfg genesis_addr g = Ok n0 -> b_height g = 0 -> b_cd g = b_diff g ->
+  N.of_nat (length ops) < two64 - 1 ->
+  let n := run cfg genesis_addr team_key n0 ops in
+  Forall (tx_c cfg) (b_txs g) ->
+  (forall h b, get_block n h = Some b -> h <> b_hash g ->
+     Forall (fun x => exists hv bs t,
+               Model.Des.result_of (Model.Des.run (Model.Codec.dec_tx cfg hv) bs) = Model.Des.ROk t /\
+               x = TxAbs.abs_tx txid_of key_id addr_id name_id sig_by sig_msg signer_invalid t) (b_txs b)) ->
+  (forall bs, up (b_hash g) (blocks n) (b_hash g) bs ->
+     NoDup (bkeys g ++ flat_map bkeys bs) /\ c0 g + bnouts bs < two64 /\ c0 g + bntx bs < two64) ->
+  forall a,
+    let evs := evs_for a (main_signs g n) in
+    nonce (acct_at (ldg n) a) = N.of_nat (length evs) /\
+    forall k, 1 <= k <= nonce (acct_at (ldg n) a) -> pget (outtx (ldg n)) (a, k) = Some (nth (N.to_nat (k - 1)) evs 0).
+Proof. exact CodecBridgeNode.outgoing_history_decoded. Qed.
+Print Assumptions C17_outgoing_history_decoded.
+
+Theorem C17_tx_heights_decoded :
+  forall (txid_of key_id addr_id name_id : list N -> N) (sig_by : Model.Codec.tx -> N) (sig_msg : Model.Codec.tx -> bool)
+         (signer_invalid : list N -> bool) cfg genesis_addr team_key g n0 ops,
+  cfg_ok_emission cfg = true -> cfg_ok_feepos cfg = true -> CodecBridge.cfg_ok_burn cfg = true ->
+  node0 cfg genesis_addr g = Ok n0 -> b_height g = 0 -> b_cd g = b_diff g ->
+  N.of_nat (length ops) < two64 - 1 ->
+  let n := run cfg genesis_addr team_key n0 ops in
+  Forall (tx_c cfg) (b_txs g) ->
+  (forall h b, get_block n h = Some b -> h <> b_hash g ->
+     Forall (fun x => exists hv bs t,
+               Model.Des.result_of (Model.Des.run (Model.Codec.dec_tx cfg hv) bs) = Model.Des.ROk t /\
+               x = TxAbs.abs_tx txid_of key_id addr_id name_id sig_by sig_msg signer_invalid t) (b_txs b)) ->
+  (forall bs, up (b_hash g) (blocks n) (b_hash g) bs ->
+     NoDup (bkeys g ++ flat_map bkeys bs) /\ c0 g + bnouts bs < two64 /\ c0 g + bntx bs < two64) ->
+  (forall B t, on_main g n B -> In t (b_txs B) -> nget (txh (ldg n)) (tx_id t) = Some (b_height B)) /\
+  (forall id, (forall B t, on_main g n B -> In t (b_txs B) -> tx_id t <> id) ->
+     nget (txh (ldg n)) id = None \/ nget (txh (ldg n)) id = Some 0).
+Proof. exact CodecBridgeNode.tx_heights_decoded. Qed.
+Print Assumptions C17_tx_heights_decoded.
+
+Theorem C17_histories_as_served_decoded :
+  forall (txid_of key_id addr_id name_id : list N -> N) (sig_by : Model.Codec.tx -> N) (sig_msg : Model.Codec.tx -> bool)
+         (signer_invalid : list N -> bool) cfg genesis_addr team_key g n0 ops,
+  cfg_ok_emission cfg = true -> cfg_ok_feepos cfg = true -> CodecBridge.cfg_ok_burn cfg = true ->
+  node0 cfg genesis_addr g = Ok n0 -> b_height g = 0 -> b_cd g = b_diff g ->
+  N.of_nat (length ops) < two64 - 1 ->
+  let n := run cfg genesis_addr team_key n0 ops in
+  Forall (tx_c cfg) (b_txs g) ->
+  (forall h b, get_block n h = Some b -> h <> b_hash g ->
+     Forall (fun x => exists hv bs t,
+               Model.Des.result_of (Model.Des.run (Model.Codec.dec_tx cfg hv) bs) = Model.Des.ROk t /\
+               x = TxAbs.abs_tx txid_of key_id addr_id name_id sig_by sig_msg signer_invalid t) (b_txs b)) ->
+  (forall bs, up (b_hash g) (blocks n) (b_hash g) bs ->
+     NoDup (bkeys g ++ flat_map bkeys bs) /\ c0 g + bnouts bs < two64 /\ c0 g + bntx bs < two64) ->
+  forall a,
+    map (fun i => pget (intx (ldg n)) (a, N.of_nat i)) (seq 1 (N.to_nat (inc (acct_at (ldg n) a)))) =
+      map Some (evs_for a (main_credits cfg genesis_addr g n)) /\
+    map (fun i => pget (outtx (ldg n)) (a, N.of_nat i)) (seq 1 (N.to_nat (nonce (acct_at (ldg n) a)))) =
+      map Some (evs_for a (main_signs g n)).
+Proof. exact CodecBridgeNode.histories_as_served_decoded. Qed.
+Print Assumptions C17_histories_as_served_decoded.
+
+Theorem C17_main_events_as_checked_decoded :
+  forall (txid_of key_id addr_id name_id : list N -> N) (sig_by : Model.Codec.tx -> N) (sig_msg : Model.Codec.tx -> bool)
+         (signer_invalid : list N -> bool) cfg genesis_addr team_key g n0 ops,
+  cfg_ok_emission cfg = true -> cfg_ok_feepos cfg = true -> CodecBridge.cfg_ok_burn cfg = true ->
+  node0 cfg genesis_addr g = Ok n0 -> b_height g = 0 -> b_cd g = b_diff g ->
+  N.of_nat (length ops) < two64 - 1 ->
+  let n := run cfg genesis_addr team_key n0 ops in
+  Forall (tx_c cfg) (b_txs g) ->
+  (forall h b, get_block n h = Some b -> h <> b_hash g ->
+     Forall (fun x => exists hv bs t,
+               Model.Des.result_of (Model.Des.run (Model.Codec.dec_tx cfg hv) bs) = Model.Des.ROk t /\
+               x = TxAbs.abs_tx txid_of key_id addr_id name_id sig_by sig_msg signer_invalid t) (b_txs b)) ->
+  (forall bs, up (b_hash g) (blocks n) (b_hash g) bs ->
+     NoDup (bkeys g ++ flat_map bkeys bs) /\ c0 g + bnouts bs < two64 /\ c0 g + bntx bs < two64) ->
+  forall h, h_genesis_addr h = genesis_addr ->
+  main_credits cfg genesis_addr g n = flat_map (Check.C17.block_credits cfg h) (g :: mchain n) /\
+  main_signs g n = flat_map Check.C17.block_signs (g :: mchain n).
+Proof. exact CodecBridgeNode.main_events_as_checked_decoded. Qed.
+Print Assumptions C17_main_events_as_checked_decoded.
+
 (* the same three facts with the per-transaction conditions as one premise on the store (store_pre of Proofs/Replay4.v:
    no use of stateless validation); tinv / hinv of Proofs/History1.v are the two shapes spelled out above *)
 Theorem C17_indexes_are_main_chain_general : forall cfg genesis_addr team_key g n0 ops,
@@ -293,8 +403,10 @@ Proof. exact same_tx_two_branches_example. Qed.
 Print Assumptions C17_same_tx_two_branches_example.
 
 (* REMAINING GAPS:
-   - the premises [typed] and [paths] are stated on the store, not derived, exactly as for C03_ledger_is_replay
-     (transaction ids and block hashes are symbolic numbers in the model; the typing is a property of the decoder);
+   - the premise [paths] is stated on the store, not derived, exactly as for C03_ledger_is_replay (transaction ids and
+     block hashes are symbolic numbers in the model); the premise [typed] is derived from the byte-level decoder model in
+     the *_decoded theorems (what stays a modelling step is the abstraction from the decoded block to the symbolic block
+     of the node model: Spec/TxAbs.v);
    - the theorems speak about the model's ledger record; that the implementation's RPC handlers read these tables
      (GetIncomingTx / GetOutgoingTx / GetTxHeight) and page them as C17_pages_partition says is checked on the
      implementation's dumps (Check/C17.v, Check/C17p.v), not proved;
